@@ -118,6 +118,47 @@ def lccNcCareful (E : Ell α) (n den : α)
   let t := t * (tbm - tam)
   RealLike.sqrt (fmax (0 : α) t * ((1 : α) + n))
 
+/-- `x` of a cone from `nrho0 = n·rho0`, `drho = rho − rho0`, `sin(theta)` and `lam` (the cylinder when `n = 0`) -/
+def coneX (nrho0 n drho stheta lam : α) : α :=
+  (nrho0 + n * drho) * (if !(RealLike.eqb n (0 : α)) then stheta / n else lam)
+/-- `y` of a cone: `nrho0·(1 − cos theta)/n − drho·cos theta`, with `1 − cos` evaluated without cancellation -/
+def coneY (nrho0 n drho stheta ctheta : α) : α :=
+  nrho0 *
+      (if !(RealLike.eqb n (0 : α)) then
+        (if RealLike.ltb ctheta (0 : α) then (1 : α) - ctheta else sq stheta / ((1 : α) + ctheta)) / n
+       else (0 : α))
+      - drho * ctheta
+/-- the scale of the Lambert cone at `(scbet, tchi, scchi)` with `dpsi = psi − psi0` -/
+def lccK (k0 scbet0 tchi0 scchi0 n nc : α) (scbet tchi scchi dpsi : α) : α :=
+  k0 * (scbet / scbet0) /
+      (RealLike.exp (-(sq nc / ((1 : α) + n)) * dpsi) * epPsi tchi scchi / (scchi0 + tchi0))
+/-- `_k0` of `Init` from the scale `k1` on the first parallel -/
+def lccK0 (k1 scbet0 tchi0 scchi0 n nc : α) (scbet1 tchi1 scchi1 : α) : α :=
+  k1 * (scbet0 / scbet1) *
+      RealLike.exp (-(sq nc / ((1 : α) + n)) * Dasinh tchi1 tchi0 scchi1 scchi0 * (tchi1 - tchi0)) *
+      epPsi tchi1 scchi1 / (scchi0 + tchi0)
+/-- `n = num/den` of the two-parallel `Init` before normalisation: `D log sec(beta) / D psi` by divided differences -/
+def lccNraw (E : Ell α) (sphi1 tphi1 scphi1 tbet1 scbet1 sphi2 tphi2 scphi2 tbet2 scbet2 : α) : α × α :=
+  let num := Dlog1p (sq tbet2 / ((1 : α) + scbet2)) (sq tbet1 / ((1 : α) + scbet1)) * Dhyp tbet2 tbet1 scbet2 scbet1 * E.fm
+  let den := Dasinh tphi2 tphi1 scphi2 scphi1 - Deatanhe E.e2 E.es sphi2 sphi1 * Dsn tphi2 tphi1 sphi2 sphi1
+  (num / den, den)
+/-- `drho = rho − rho0` recovered by `Reverse` from `(x, y)` (`nx = n x`, `ny = n y`) -/
+def coneDrhoRev (nrho0 nx ny x y den : α) : α := (x * nx + y * (ny - (2 : α) * nrho0)) / den
+/-- `dpsi` of `Reverse` from `t^n − 1` -/
+def lccDpsiRev (t0nm1 scale tnm1 drho : α) : α := -(Dlog1p tnm1 t0nm1) * drho / scale
+/-- `tchi` of `Reverse`, `2n <= 1` -/
+def lccTchiA (psi0 tchi0 scchi0 dpsi : α) : α :=
+  let psi := psi0 + dpsi
+  let tchia := RealLike.sinh psi
+  let scchi := hyp tchia
+  let dtchi := Dsinh psi psi0 tchia tchi0 scchi scchi0 * dpsi
+  tchi0 + dtchi
+/-- `tchi` of `Reverse`, `2n > 1`, from `tn = t^n` -/
+def lccTchiB (n nc tnm1 tn : α) : α :=
+  let sh := RealLike.sinh (-(sq nc) / (n * ((1 : α) + n)) *
+              (if RealLike.ltb (1 : α) ((2 : α) * tn) then log1p tnm1 else RealLike.log tn))
+  sh * (tn + (1 : α) / tn) / 2 - hyp sh * (tnm1 * (tn + 1) / tn) / 2
+
 /-- `_drhomax`: the `drho` of `Forward` at `lat = −90` (`sphi = −1`, `cphi = epsx`) -/
 def lccDrhomax (E : Ell α) (scale n nc t0nm1 psi0 tchi0 scchi0 : α) : α :=
   let sphi := -(1 : α)
@@ -168,9 +209,9 @@ def lccInit (E : Ell α) (sphi1 cphi1 sphi2 cphi2 k1 : α) : LCC α :=
   let psi1 := RealLike.asinh tchi1
   let (n, nc, tphi0) :=
     if !(RealLike.eqb (tphi2 - tphi1) (0 : α)) then
-      let num := Dlog1p (sq tbet2 / ((1 : α) + scbet2)) (sq tbet1 / ((1 : α) + scbet1)) * Dhyp tbet2 tbet1 scbet2 scbet1 * fm
-      let den := Dasinh tphi2 tphi1 scphi2 scphi1 - Deatanhe E.e2 E.es sphi2 sphi1 * Dsn tphi2 tphi1 sphi2 sphi1
-      let n := num / den
+      let nd := lccNraw E sphi1 tphi1 scphi1 tbet1 scbet1 sphi2 tphi2 scphi2 tbet2 scbet2
+      let n := nd.1
+      let den := nd.2
       let nc :=
         if RealLike.ltb n ((1 : α) / 4) then RealLike.sqrt (((1 : α) - n) * ((1 : α) + n))
         else lccNcCareful E n den sphi1 tphi1 scphi1 shxi1 chxi1 xi1 tchi1 scchi1 tbet1 scbet1
@@ -191,9 +232,7 @@ def lccInit (E : Ell α) (sphi1 cphi1 sphi2 cphi2 k1 : α) : LCC α :=
   let psi0 := RealLike.asinh tchi0
   let t0nm1 := expm1 (-n * psi0)
   let scale := E.a * k1 / scbet1 * RealLike.exp (-(sq nc / ((1 : α) + n)) * psi1) * epPsi tchi1 scchi1
-  let k0 := k1 * (scbet0 / scbet1) *
-      RealLike.exp (-(sq nc / ((1 : α) + n)) * Dasinh tchi1 tchi0 scchi1 scchi0 * (tchi1 - tchi0)) *
-      epPsi tchi1 scchi1 / (scchi0 + tchi0)
+  let k0 := lccK0 k1 scbet0 tchi0 scchi0 n nc scbet1 tchi1 scchi1
   let nrho0 := if polar then (0 : α) else E.a * k0 / scbet0
   let drhomax := lccDrhomax E scale n nc t0nm1 psi0 tchi0 scchi0
   ⟨sign, n, nc, t0nm1, scale, sign * tphi0, k0, scbet0, tchi0, scchi0, psi0, nrho0, drhomax⟩
@@ -213,14 +252,9 @@ def lccForward (E : Ell α) (L : LCC α) (sphi cphi0 lam : α) : ConeOut α :=
   let ctheta := RealLike.cos theta
   let dpsi := Dasinh tchi L.tchi0 scchi L.scchi0 * (tchi - L.tchi0)
   let drho := lccDrho L.scale L.n L.nc L.t0nm1 L.psi0 tchi scchi psi dpsi
-  let x := (L.nrho0 + L.n * drho) * (if !(RealLike.eqb L.n (0 : α)) then stheta / L.n else lam)
-  let y := L.nrho0 *
-      (if !(RealLike.eqb L.n (0 : α)) then
-        (if RealLike.ltb ctheta (0 : α) then (1 : α) - ctheta else sq stheta / ((1 : α) + ctheta)) / L.n
-       else (0 : α))
-      - drho * ctheta
-  let k := L.k0 * (scbet / L.scbet0) /
-      (RealLike.exp (-(sq L.nc / ((1 : α) + L.n)) * dpsi) * epPsi tchi scchi / (L.scchi0 + L.tchi0))
+  let x := coneX L.nrho0 L.n drho stheta lam
+  let y := coneY L.nrho0 L.n drho stheta ctheta
+  let k := lccK L.k0 L.scbet0 L.tchi0 L.scchi0 L.n L.nc scbet tchi scchi dpsi
   ⟨x, y, theta, k⟩
 
 /-- `digits·log(radix) + 2` -/
@@ -241,26 +275,17 @@ def lccReverse (tauf : α → α → α) (E : Ell α) (L : LCC α) (x y : α) : 
   let ny := if !(RealLike.eqb L.n (0 : α)) then L.n * y else (0 : α)
   let y1 := L.nrho0 - ny
   let den := RealLike.hypot nx y1 + L.nrho0
-  let drho := if !(RealLike.eqb den (0 : α)) && isfin den then (x * nx + y * (ny - (2 : α) * L.nrho0)) / den else den
+  let drho := if !(RealLike.eqb den (0 : α)) && isfin den then coneDrhoRev L.nrho0 nx ny x y den else den
   let drho := if RealLike.ltb L.drhomax drho then L.drhomax else drho
   let drho := if RealLike.eqb L.n (0 : α) then (if RealLike.ltb drho (-L.drhomax) then -L.drhomax else drho) else drho
   let tnm1 := L.t0nm1 + L.n * drho / L.scale
   let dpsi :=
     if RealLike.eqb den (0 : α) then (0 : α)
-    else if !(RealLike.leb (tnm1 + 1) (0 : α)) then -(Dlog1p tnm1 L.t0nm1) * drho / L.scale
+    else if !(RealLike.leb (tnm1 + 1) (0 : α)) then lccDpsiRev L.t0nm1 L.scale tnm1 drho
     else (ahypover : α)
   let tchi :=
-    if RealLike.leb ((2 : α) * L.n) (1 : α) then
-      let psi := L.psi0 + dpsi
-      let tchia := RealLike.sinh psi
-      let scchi := hyp tchia
-      let dtchi := Dsinh psi L.psi0 tchia L.tchi0 scchi L.scchi0 * dpsi
-      L.tchi0 + dtchi
-    else
-      let tn := if RealLike.leb (tnm1 + 1) (0 : α) then (epsx : α) else tnm1 + 1
-      let sh := RealLike.sinh (-(sq L.nc) / (L.n * ((1 : α) + L.n)) *
-                  (if RealLike.ltb (1 : α) ((2 : α) * tn) then log1p tnm1 else RealLike.log tn))
-      sh * (tn + (1 : α) / tn) / 2 - hyp sh * (tnm1 * (tn + 1) / tn) / 2
+    if RealLike.leb ((2 : α) * L.n) (1 : α) then lccTchiA L.psi0 L.tchi0 L.scchi0 dpsi
+    else lccTchiB L.n L.nc tnm1 (if RealLike.leb (tnm1 + 1) (0 : α) then (epsx : α) else tnm1 + 1)
   let gamma := RealLike.atan2 nx y1
   let tphi := tauf tchi E.es
   let scbet := hyp (E.fm * tphi)
@@ -512,24 +537,30 @@ def albInit (E : Ell α) (sphi1 cphi1 sphi2 cphi2 k1 : α) : ALB α :=
   let k0 := RealLike.sqrt (if RealLike.eqb tphi1 tphi2 then (1 : α) else C / (m02 + n0 * E.qZ * sxi0)) * k1
   ⟨sign, sign * tphi0, k0, n0, m02, nrho0, sq k0, txi0, scxi0, sxi0⟩
 
+/-- `dq = q − q0` of `Forward` from the authalic tangents -/
+def albDq (qZ txi sxi txi0 sxi0 : α) : α := qZ * Dsn txi txi0 sxi sxi0 * (txi - txi0)
+/-- `drho = rho − rho0` of `Forward` -/
+def albDrho (a m02 n0 nrho0 dq : α) : α := -(a * dq) / (RealLike.sqrt (fmax (0 : α) (m02 - n0 * dq)) + nrho0 / a)
+/-- `dsxia = scxi0·(sxi − sxi0)` of `Reverse` -/
+def albDsxia (a qZ scxi0 nrho0 n0 drho : α) : α := -(scxi0 * ((2 : α) * nrho0 + n0 * drho) * drho) / (sq a * qZ)
+/-- `txi` of `Reverse` -/
+def albTxiRev (txi0 dsxia : α) : α :=
+  (txi0 + dsxia) / RealLike.sqrt (fmax (sq (epsx : α)) ((1 : α) - dsxia * ((2 : α) * txi0 + dsxia)))
+
 /-- `AlbersEqualArea::Forward` between `sincosd` / `lam` and `y *= _sign; gamma = _sign·theta/degree` -/
 def albForward (E : Ell α) (A : ALB α) (sphi cphi0 lam : α) : ConeOut α :=
   let cphi := fmax (epsx : α) cphi0
   let tphi := sphi / cphi
   let txi := txif E tphi
   let sxi := txi / hyp txi
-  let dq := E.qZ * Dsn txi A.txi0 sxi A.sxi0 * (txi - A.txi0)
-  let drho := -(E.a * dq) / (RealLike.sqrt (fmax (0 : α) (A.m02 - A.n0 * dq)) + A.nrho0 / E.a)
+  let dq := albDq E.qZ txi sxi A.txi0 A.sxi0
+  let drho := albDrho E.a A.m02 A.n0 A.nrho0 dq
   let theta := A.k2 * A.n0 * lam
   let stheta := RealLike.sin theta
   let ctheta := RealLike.cos theta
   let t := A.nrho0 + A.n0 * drho
   let x := t * (if !(RealLike.eqb A.n0 (0 : α)) then stheta / A.n0 else A.k2 * lam) / A.k0
-  let y := (A.nrho0 *
-      (if !(RealLike.eqb A.n0 (0 : α)) then
-        (if RealLike.ltb ctheta (0 : α) then (1 : α) - ctheta else sq stheta / ((1 : α) + ctheta)) / A.n0
-       else (0 : α))
-      - drho * ctheta) / A.k0
+  let y := coneY A.nrho0 A.n0 drho stheta ctheta / A.k0
   let k := A.k0 * (if !(RealLike.eqb t (0 : α)) then t * hyp (E.fm * tphi) / E.a else (1 : α))
   ⟨x, y, theta, k⟩
 
@@ -548,8 +579,8 @@ def albReverse (tphif : α → α) (E : Ell α) (A : ALB α) (x y : α) : AlbRev
   let y1 := A.nrho0 - ny
   let den := RealLike.hypot nx y1 + A.nrho0
   let drho := if !(RealLike.eqb den (0 : α)) then (A.k0 * x * nx - (2 : α) * A.k0 * y * A.nrho0 + A.k0 * y * ny) / den else (0 : α)
-  let dsxia := -(A.scxi0 * ((2 : α) * A.nrho0 + A.n0 * drho) * drho) / (sq E.a * E.qZ)
-  let txi := (A.txi0 + dsxia) / RealLike.sqrt (fmax (sq (epsx : α)) ((1 : α) - dsxia * ((2 : α) * A.txi0 + dsxia)))
+  let dsxia := albDsxia E.a E.qZ A.scxi0 A.nrho0 A.n0 drho
+  let txi := albTxiRev A.txi0 dsxia
   let tphi := tphif txi
   let theta := RealLike.atan2 nx y1
   let lam := if !(RealLike.eqb A.n0 (0 : α)) then theta / (A.k2 * A.n0) else x / (y1 * A.k0)
